@@ -5,24 +5,24 @@ props = {json.loads(l)['id']: json.loads(l) for l in open('/verif/properties.jso
 hook_commits = subprocess.check_output(['git','-C','/repo','log','--format=%h %s']).decode().strip().split('\n')
 hook_commits = [l.split()[0] for l in hook_commits if 'verif hooks' in l][::-1]
 NOTES = {
- 'C01': ("runtime layer: 24 spawn/join programs (go!, Builder with custom stack and id, spawn_local; ret / yield / sleep / park / panic / cancel / nested / scoped), workers 1-2, 10 ms polling variants", "§6 C01"),
+ 'C01': ("runtime layer: 24 spawn/join programs (go!, Builder with custom stack and id, spawn_local; ret / yield / sleep / park / panic / cancel / nested / scoped), workers 1-2, run queues positioned at their 32/64-slot block boundaries, 10 ms polling variants", "§6 C01"),
  'C02': ("ThreadPark through Blocker (fine), coroutine::park / park_timeout sequences with unpark-after-return handshake, fresh Blocker parks with timeout / cancel / ignore_cancel, thread and coroutine unparkers, T2 clock deviations", "§6 C02"),
  'C03': ("component layer, fine granularity with post-store points: mpsc and spsc block queues at block-boundary offsets, 2 producers x consumer programs, brute-force FIFO linearizability + exactly-once + drop counters; exhaustive sequential sweeps vs VecDeque", "§6 C03"),
- 'C04': ("component layer, fine: spmc Local/Steal (owner push/pop vs 1-2 stealers' steal_into) and raw Queue pop/bulk_pop at block-boundary offsets; exactly-once, owner/batch order, newest-of-batch, drop counters", "§6 C04"),
- 'C05': ("Mutex with thread / coroutine mixes, try_lock, a cancelled waiter; occupancy counter and split read-modify-write inside the critical section, lock free and unpoisoned at the end", "§6 C05"),
- 'C06': ("mpsc / spsc / mpmc channels with thread and coroutine endpoints: recv / try_recv / recv_timeout programs, multiset + per-sender order + drop counters, every receiver finally sees Disconnected", "§6 C06"),
+ 'C04': ("component layer, fine: spmc Local/Steal (owner push/pop vs 1-2 stealers' steal_into) and raw Queue pop/bulk_pop at block-boundary offsets; exactly-once, owner/batch order, newest-of-batch, drop counters; ABA member: stealer stalled across two blocks of owner push/pop under the recycling allocator", "§6 C04"),
+ 'C05': ("Mutex with thread / coroutine mixes, try_lock, a cancelled waiter; occupancy counter and split read-modify-write inside the critical section, lock free and unpoisoned at the end; members with the lock held when the window opens so that the hand-off races with the cancellation", "§6 C05"),
+ 'C06': ("mpsc / spsc / mpmc channels with thread and coroutine endpoints: recv / try_recv / recv_timeout programs, multiset + per-sender order + drop counters, every receiver finally sees Disconnected; members whose Senders stay alive until everything is received (only the send itself can wake the receiver)", "§6 C06"),
  'C07': ("last Sender dropped against receivers before / in / after registering (0-1 values queued, 1-2 mpmc receivers, cloned senders), Receiver dropped against senders; no hang, queued values first, values dropped once", "§6 C07"),
- 'C08': ("timer-list component (TimerThread driven by harness threads: add / delete / expiry with equal and different intervals), sweep of every timed API x coroutine/thread context x duration alphabet {0, 1 ns, 999999 ns, 1 ms, 1 ms+1 ns, 1.5 ms, 2 ms} with nothing arriving, event-vs-timeout races with T2 clock deviations; never early, always returns, lateness <= 1 ms without clock deviations", "§6 C08"),
- 'C09': ("a target coroutine owning tracked values blocks in park / sleep / yield / Mutex / Semphore / Condvar / RwLock read+write / SyncFlag / mpsc / mpmc / join and then in a second cancellable call; the search places cancel(); a partner issues the awaited events, a bystander shares the primitive", "§6 C09"),
+ 'C08': ("timer-list component at fine granularity (TimerThread driven by harness threads: add / delete / expiry with equal and different intervals, adds coinciding with an expiry), sweep of every timed API x coroutine/thread context x duration alphabet {0, 1 ns, 999999 ns, 1 ms, 1 ms+1 ns, 1.5 ms, 2 ms} with nothing arriving, event-vs-timeout races with T2 clock deviations; never early, always returns, lateness <= 1 ms without clock deviations", "§6 C08"),
+ 'C09': ("a target coroutine owning tracked values blocks in park / sleep / yield / Mutex / Semphore / Condvar / RwLock read+write / SyncFlag / mpsc / mpmc / join and then in a second cancellable call; the search places cancel(); a partner issues the awaited events, a bystander shares the primitive; cancel-only members where the cancel is the only wake-up; quiescent probes of the primitive's state", "§6 C09"),
  'C10': ("Semphore wait / wait_timeout / try_wait / post and SyncFlag wait / fire with threads and coroutines, cancelled waiters; prefix bound on successful waits, conservation at quiescence, latch clauses", "§6 C10"),
- 'C11': ("Condvar wait / wait_while / wait_timeout vs notify_one / notify_all, forwarding of a notification by a timing-out or cancelled waiter, Barrier generations and leaders, WaitGroup", "§6 C11"),
- 'C12': ("RwLock: exhaustive sequential operation sequences (read / write / try_* / guard drops / poison) against a reader-writer model plus concurrent thread / coroutine mixes in clean and poisoned state, cancelled waiters", "§6 C12"),
- 'C13': ("a coroutine panics (typed payload) before / after a yield, holding a Mutex or RwLock write guard, as scoped child or select arm; cancel unwind with guards; bystanders, later spawns on the recycled stack, poison flag and release", "§6 C13"),
- 'C14': ("coroutine::scope / join! / cqueue::scope with thread and coroutine owners, owner panics, owner cancelled while waiting, join! inside a losing select! arm; children watch an owner-frame liveness flag", "§6 C14"),
- 'C15': ("coroutine_local! privacy across yields and migration, init-once and drop-once, thread fallback; fresh coroutine on the provably reused stack after a returned / panicked / cancelled / timed-out occupant", "§6 C15"),
+ 'C11': ("Condvar wait / wait_while / wait_timeout vs notify_one / notify_all, forwarding of a notification by a timing-out or cancelled waiter, the notifier holding the mutex while the waiter's wait ends, cancel during the re-lock after a notification, Barrier generations and leaders, WaitGroup", "§6 C11"),
+ 'C12': ("RwLock: exhaustive sequential operation sequences (read / write / try_* / guard drops / poison) against a reader-writer model plus concurrent thread / coroutine mixes in clean and poisoned state, cancelled waiters, quiescent probe of the reader/writer counts", "§6 C12"),
+ 'C13': ("a coroutine panics (typed payload) before / after a yield, holding a Mutex or RwLock write guard, as scoped child or select arm; cancel unwind with guards; bystanders, coroutine and thread lockers plus a try-lock prober released when the panic starts, later spawns on the recycled stack, poison flag and release", "§6 C13"),
+ 'C14': ("coroutine::scope / join! / cqueue::scope with thread and coroutine owners, owner panics, owner cancelled while waiting, the last-spawned child panics while its siblings run, join! inside a losing select! arm; children watch an owner-frame liveness flag", "§6 C14"),
+ 'C15': ("coroutine_local! privacy across yields and migration, init-once and drop-once, thread fallback; fresh coroutine on the provably reused stack after a returned / panicked / cancelled (also with a destructor that yields during the unwind) / timed-out occupant", "§6 C15"),
  'C16': ("cqueue arms with ready / yield / sleep / channel-receive / panicking top halves, one-shot and two-event arms, poll(None) and poll(1 ms), Selector::remove, thread and coroutine pollers, select! against channel and sleep; per-arm top/bottom counters, Finished / Timeout clauses, nothing runs after the scope", "§6 C16"),
- 'C17': ("real sockets, real kernel: UnixStream pairs (coroutine and thread endpoints through the proxy coroutine), payload / chunk / buffer alphabets, back-pressure over minimised socket buffers, two connections, loopback TCP accept / connect / EOF, Unix and UDP datagram boundaries; byte-exact comparison, EOF position, no hang; use-after-free detector on every hooked access", "§6 C17"),
- 'C18': ("socket read timeouts {500 us, 1 ms, 1.5 ms} with the peer writing never / before / after the deadline, two operations on one socket (stale timer), cancel of a coroutine blocked in read / accept / recv_from with a bystander connection; exact timeout clauses, fd closed after cancel", "§6 C18"),
+ 'C17': ("real sockets, real kernel: UnixStream pairs (coroutine and thread endpoints through the proxy coroutine), payload / chunk / buffer alphabets, back-pressure over minimised socket buffers, two connections, loopback TCP accept / connect / EOF, Unix and UDP datagram boundaries; thread readers with spurious std::thread::park wake-ups as a deviation; byte-exact comparison, EOF position, no hang; use-after-free detector on every hooked access", "§6 C17"),
+ 'C18': ("socket read timeouts {500 us, 1 ms, 1.5 ms} with the peer writing never / before / after the deadline, two operations on one socket (stale timer; the read starting in the instant the data arrives so that subscribe takes its fast path), cancel of a coroutine blocked in read / accept / recv_from with a bystander connection; exact timeout clauses, fd closed after cancel", "§6 C18"),
  'C19': ("component layer, fine: mpsc_list_v1 push vs pop / pop_if / peek / remove (head, middle, last, consumed entry), queue drop with entries left, FIFO-with-removal linearizability incl. the is_head report; exhaustive sequential sweep; mpsc_list", "§6 C19"),
 }
 checks = []
